@@ -753,7 +753,11 @@ func c14Adapter(r *core.Run) {
 				excuse := func(cond ssa.Value) (bool, bool) {
 					// the path could not be made absolute
 					if x, nonNilOnTrue, ok := core.NilCompare(cond); ok && x.Type().String() == "error" {
-						return true, nonNilOnTrue
+						if ex, isEx := core.Unwrap(x).(*ssa.Extract); isEx {
+							if _, isAbs := callTo(ex.Tuple, "path/filepath.Abs"); isAbs {
+								return true, nonNilOnTrue
+							}
+						}
 					}
 					op, x, y, neg, ok := core.Compare(cond)
 					if ok && !neg && (op == token.EQL || op == token.NEQ) {
